@@ -901,4 +901,161 @@ theorem hshiftLoop_spec (top : Nat) (st : HState) (h : Sep st) :
         rw [hih.2.2.2.2.2 r (by rw [hnext]; omega)]
         exact deref_alloc_lt st _ r hr
 
+/-! ### any sequence of index-0 writes and shifts with a fixed depth -/
+
+theorem take_take_succ (k : Nat) (a : Val) (t : Window) :
+    (a :: t.take k).take k = (a :: t).take k := by
+  cases k with
+  | zero => rfl
+  | succ j => simp [List.take_take]
+
+theorem wstep_take (m : Nat) (hm : 0 < m) (op : Op) (hop : fixedOp m op = true) (h : Window) :
+    (wstep (h.take m) op).1 = (ghostStep h op).take m := by
+  obtain ⟨k, rfl⟩ : ∃ k, m = k + 1 := ⟨m - 1, by omega⟩
+  cases op with
+  | set i v =>
+    have hi : i = 0 := by simpa [fixedOp] using hop
+    subst hi
+    cases h <;> simp [wstep, ghostStep, wset]
+  | add i v =>
+    have hi : i = 0 := by simpa [fixedOp] using hop
+    subst hi
+    cases h <;> simp [wstep, ghostStep, wadd]
+  | get i =>
+    simp only [wstep, ghostStep]
+    cases (List.take (k + 1) h)[i]? <;> rfl
+  | shift mm =>
+    cases mm with
+    | none => simp [fixedOp] at hop
+    | some q =>
+      have hq : q = ((k + 1 : Nat) : Int) := by simpa [fixedOp] using hop
+      subst hq
+      have hneg : ¬ (((k + 1 : Nat) : Int) < 0) := by omega
+      simp only [wstep, if_neg hneg, Int.toNat_natCast, ghostStep]
+      cases h with
+      | nil => rfl
+      | cons a t =>
+        have hd : (a :: t.take k).drop (k + 1) = [] :=
+          List.drop_eq_nil_of_le (by simp only [List.length_cons, List.length_take]; omega)
+        simp only [wshift, List.take_succ_cons, hd, List.append_nil, take_take_succ]
+
+theorem regular_fixed (m : Nat) (ops : List Op) (hfix : ops.all (fixedOp m) = true) (w : Window) :
+    regular w ops = true := by
+  induction ops generalizing w with
+  | nil => rfl
+  | cons op ops ih =>
+    simp only [List.all_cons, Bool.and_eq_true] at hfix
+    simp only [regular, Bool.and_eq_true]
+    refine ⟨?_, ih hfix.2 _⟩
+    cases op with
+    | set i v =>
+      have hi : i = 0 := by simpa [fixedOp] using hfix.1
+      subst hi; simp
+    | _ => rfl
+
+theorem wexec_fixed (m : Nat) (hm : 0 < m) (ops : List Op) (hfix : ops.all (fixedOp m) = true) (h : Window) :
+    wexec (h.take m) ops = (ghost h ops).take m := by
+  induction ops generalizing h with
+  | nil => rfl
+  | cons op ops ih =>
+    simp only [List.all_cons, Bool.and_eq_true] at hfix
+    simp only [wexec, ghost]
+    rw [wstep_take m hm op hfix.1 h, ih hfix.2]
+
+/-! ### un-shift -/
+
+theorem alookup_aerase {κ α : Type} [DecidableEq κ] (s : List (κ × α)) (k j : κ) (hnd : (s.map (·.1)).Nodup) :
+    alookup (aerase s k) j = if j = k then none else alookup s j := by
+  induction s with
+  | nil => simp [aerase, alookup]
+  | cons p s ih =>
+    have hn := nodup_map_cons hnd
+    unfold aerase
+    by_cases hp : p.1 = k
+    · rw [if_pos hp]
+      by_cases hj : j = k
+      · rw [if_pos hj]
+        cases hl : alookup s j with
+        | none => rfl
+        | some v =>
+          exfalso; apply hn.1
+          rw [hp, ← hj, mem_keys_iff, hl]; rfl
+      · have : ¬ p.1 = j := fun e => hj (e.symm.trans hp)
+        simp [alookup, hj, this]
+    · rw [if_neg hp]
+      by_cases hpj : p.1 = j
+      · have : ¬ j = k := fun e => hp (hpj.trans e)
+        simp [alookup, hpj, this]
+      · simp only [alookup, if_neg hpj, ih hn.2]
+
+theorem mem_keys_aerase {κ α : Type} [DecidableEq κ] (s : List (κ × α)) (k j : κ)
+    (h : j ∈ (aerase s k).map (·.1)) : j ∈ s.map (·.1) := by
+  induction s with
+  | nil => simp [aerase] at h
+  | cons p s ih =>
+    unfold aerase at h
+    split at h
+    · simp only [List.map_cons, List.mem_cons]; exact Or.inr h
+    · simp only [List.map_cons, List.mem_cons] at h ⊢
+      rcases h with h | h
+      · exact Or.inl h
+      · exact Or.inr (ih h)
+
+theorem nodup_keys_aerase {κ α : Type} [DecidableEq κ] (s : List (κ × α)) (k : κ) (hnd : (s.map (·.1)).Nodup) :
+    ((aerase s k).map (·.1)).Nodup := by
+  induction s with
+  | nil => simp [aerase]
+  | cons p s ih =>
+    have hn := nodup_map_cons hnd
+    unfold aerase
+    split
+    · exact hn.2
+    · simp only [List.map_cons]
+      exact List.nodup_cons.mpr ⟨fun e => hn.1 (mem_keys_aerase s k _ e), ih hn.2⟩
+
+theorem unshiftLoop_nodup (i c : Nat) (s : Store) (h : (s.map (·.1)).Nodup) :
+    (((unshiftLoop i c s).1).map (·.1)).Nodup := by
+  induction c generalizing i s with
+  | zero => exact h
+  | succ c ih =>
+    unfold unshiftLoop
+    cases lookup s (i + 1) with
+    | none => exact h
+    | some v => exact ih _ _ (nodup_insert s i v h)
+
+theorem unshiftLoop_spec (i c : Nat) (s : Store)
+    (hall : ∀ j, i ≤ j → j < i + c → (lookup s (j + 1)).isSome = true) :
+    (unshiftLoop i c s).2 = true ∧
+      ∀ j, lookup (unshiftLoop i c s).1 j = if i ≤ j ∧ j < i + c then lookup s (j + 1) else lookup s j := by
+  induction c generalizing i s with
+  | zero =>
+    refine ⟨rfl, fun j => ?_⟩
+    have : ¬ (i ≤ j ∧ j < i + 0) := by omega
+    rw [if_neg this]; rfl
+  | succ c ih =>
+    unfold unshiftLoop
+    cases hl : lookup s (i + 1) with
+    | none =>
+      have := hall i (Nat.le_refl _) (by omega)
+      simp [hl] at this
+    | some v =>
+      simp only
+      have hall' : ∀ j, i + 1 ≤ j → j < i + 1 + c → (lookup (insert s i v) (j + 1)).isSome = true := by
+        intro j h1 h2
+        rw [lookup_insert_ne _ _ _ _ (by omega)]
+        exact hall j (by omega) (by omega)
+      have := ih (i + 1) (insert s i v) hall'
+      refine ⟨this.1, fun j => ?_⟩
+      rw [this.2 j]
+      by_cases h1 : i + 1 ≤ j ∧ j < i + 1 + c
+      · have h2 : i ≤ j ∧ j < i + (c + 1) := by omega
+        rw [if_pos h1, if_pos h2, lookup_insert_ne _ _ _ _ (by omega)]
+      · rw [if_neg h1]
+        by_cases hj : j = i
+        · subst hj
+          have h2 : j ≤ j ∧ j < j + (c + 1) := by omega
+          rw [if_pos h2, lookup_insert_self, hl]
+        · have h2 : ¬ (i ≤ j ∧ j < i + (c + 1)) := by omega
+          rw [if_neg h2, lookup_insert_ne _ _ _ _ hj]
+
 end PorepyVerif.C08
